@@ -30,6 +30,7 @@ RULE = ('Entry "fitfile": Hypothesis generates a package (distance-independent o
         'file, the list of records and (one-record files) the single object. Non-trivial: fitfile = >=2 eligible and >=1 '
         'ineligible source; postproc = >=2 calls of which an earlier one used a tighter selector than a later one.')
 RULE += (' ' + 'Also varied: data lines that share a source name with different photometry, grids of 300 / 700 models, mixed storage (.gz).')
+RULE += (' ' + "Entry 'seq': sequences of 1..5 records written then read (fresh objects, one re-used Source object, or the same result written again after keep()). Data files end with or without a newline or with blank lines.")
 ASSUMPTIONS = [
     'the object interface used for comparison is Fitter(...same arguments...).fit(Source.from_ascii(line)) with the same '
     'memory-mapping default as fit()',
